@@ -457,4 +457,81 @@ theorem flip_val {o1 o2 : BinOp} {ta tb : Ty} {x y : Int} (hne : o1 ≠ o2) (hf 
     simp [evalBin, BinOp.isShift, uac_comm tb ta, binTy, BinOp.isCmp, BinOp.isLogic] <;> congr 1 <;> simp <;>
     constructor <;> intro h <;> omega
 
+/-- what the induction hypothesis gives for a pair of operands -/
+def Rel (S : Sem) (ρ : Env) (c : Ctx) (a b : Expr) : Prop :=
+  ∀ va vb, eval S ρ a = some va → eval S ρ b = some vb → Sim S c a va c b vb
+
+theorem comm_cop_list {o : BinOp} (hc : o.commutative = true) (hl : o.isLogic = false) :
+    o = .add ∨ o = .mul ∨ o = .band ∨ o = .bor ∨ o = .bxor ∨ o = .eq ∨ o = .ne := by
+  cases o <;> simp [BinOp.commutative, BinOp.isLogic] at hc hl ⊢
+
+theorem binSame_sound {S ρ o a1 l1 r1 a2 l2 r2 v1 v2}
+    (gl1 : annOK S l1 = true) (gr1 : annOK S r1 = true) (gl2 : annOK S l2 = true) (gr2 : annOK S r2 = true)
+    (h : (Rel S ρ (childCtxB o) l1 l2 ∧ Rel S ρ (childCtxB o) r1 r2) ∨
+         (o.commutative = true ∧ Rel S ρ (childCtxB o) r1 l2 ∧ Rel S ρ (childCtxB o) l1 r2))
+    (h1 : eval S ρ (.bin a1 o l1 r1) = some v1) (h2 : eval S ρ (.bin a2 o l2 r2) = some v2) :
+    v1 = v2 ∧ tyOf S (.bin a1 o l1 r1) = tyOf S (.bin a2 o l2 r2) := by
+  by_cases hlog : o.isLogic = true
+  · have hty : tyOf S (.bin a1 o l1 r1) = tyOf S (.bin a2 o l2 r2) := by simp [tyOf, hlog]
+    refine ⟨?_, hty⟩
+    cases o <;> simp [BinOp.isLogic] at hlog
+    case land =>
+      simp only [childCtxB] at h
+      obtain ⟨x1, hx1, c1⟩ := eval_land h1
+      obtain ⟨x2, hx2, c2⟩ := eval_land h2
+      rcases h with ⟨hl, hr⟩ | ⟨_, hrl, hlr⟩
+      · have t := (hl x1 x2 hx1 hx2).truthy
+        rcases c1 with ⟨z1, rfl⟩ | ⟨n1, y1, hy1, rfl⟩ <;> rcases c2 with ⟨z2, rfl⟩ | ⟨n2, y2, hy2, rfl⟩
+        · rfl
+        · exact absurd (t.mpr n2) (by simp [z1])
+        · exact absurd (t.mp n1) (by simp [z2])
+        · have t2 := (hr y1 y2 hy1 hy2).truthy
+          by_cases hy : y1 = 0 <;> simp_all [b2i]
+      · rcases c1 with ⟨z1, rfl⟩ | ⟨n1, y1, hy1, rfl⟩ <;> rcases c2 with ⟨z2, rfl⟩ | ⟨n2, y2, hy2, rfl⟩
+        · rfl
+        · have t := (hlr x1 y2 hx1 hy2).truthy
+          simp_all [b2i]
+        · have t := (hrl y1 x2 hy1 hx2).truthy
+          simp_all [b2i]
+        · have t := (hlr x1 y2 hx1 hy2).truthy
+          have t2 := (hrl y1 x2 hy1 hx2).truthy
+          simp_all [b2i]
+    case lor =>
+      simp only [childCtxB] at h
+      obtain ⟨x1, hx1, c1⟩ := eval_lor h1
+      obtain ⟨x2, hx2, c2⟩ := eval_lor h2
+      rcases h with ⟨hl, hr⟩ | ⟨_, hrl, hlr⟩
+      · have t := (hl x1 x2 hx1 hx2).truthy
+        rcases c1 with ⟨n1, rfl⟩ | ⟨z1, y1, hy1, rfl⟩ <;> rcases c2 with ⟨n2, rfl⟩ | ⟨z2, y2, hy2, rfl⟩
+        · rfl
+        · exact absurd (t.mp n1) (by simp [z2])
+        · exact absurd (t.mpr n2) (by simp [z1])
+        · have t2 := (hr y1 y2 hy1 hy2).truthy
+          by_cases hy : y1 = 0 <;> simp_all [b2i]
+      · rcases c1 with ⟨n1, rfl⟩ | ⟨z1, y1, hy1, rfl⟩ <;> rcases c2 with ⟨n2, rfl⟩ | ⟨z2, y2, hy2, rfl⟩
+        · rfl
+        · have t := (hlr x1 y2 hx1 hy2).truthy
+          simp_all [b2i]
+        · have t := (hrl y1 x2 hy1 hx2).truthy
+          simp_all [b2i]
+        · have t := (hlr x1 y2 hx1 hy2).truthy
+          have t2 := (hrl y1 x2 hy1 hx2).truthy
+          by_cases hy : y1 = 0 <;> simp_all [b2i]
+  · have hlog' : o.isLogic = false := by simpa using hlog
+    have hcc : childCtxB o = .cop := by cases o <;> simp [BinOp.isLogic] at hlog' <;> rfl
+    rw [hcc] at h
+    obtain ⟨x1, y1, hx1, hy1, e1⟩ := eval_bin_cop hlog' h1
+    obtain ⟨x2, y2, hx2, hy2, e2⟩ := eval_bin_cop hlog' h2
+    rw [tyOf_bin, tyOf_bin]
+    rcases h with ⟨hl, hr⟩ | ⟨hc, hrl, hlr⟩
+    · obtain ⟨rfl, tl⟩ := Sim.cop gl1 gl2 hx1 hx2 (hl x1 x2 hx1 hx2)
+      obtain ⟨rfl, tr⟩ := Sim.cop gr1 gr2 hy1 hy2 (hr y1 y2 hy1 hy2)
+      rw [tl, tr] at e1
+      rw [e1] at e2
+      exact ⟨by simpa using e2, by rw [tl, tr]⟩
+    · obtain ⟨rfl, t1⟩ := Sim.cop gr1 gl2 hy1 hx2 (hrl y1 x2 hy1 hx2)
+      obtain ⟨rfl, t2⟩ := Sim.cop gl1 gr2 hx1 hy2 (hlr x1 y2 hx1 hy2)
+      rw [← t1, ← t2, ← evalBin_comm o _ _ _ _ (comm_cop_list hc hlog'), e1] at e2
+      exact ⟨by simpa using e2, by rw [← t1, ← t2, binTy_comm o _ _ hc]⟩
+
 end Cppcheck.CondExpr
